@@ -38,8 +38,23 @@ def contexts():
     return out
 
 
-def render_all(obj):
+def render_all(obj, reverse=False):
     """all observable renderings of an object: str, every dialect context inline and parameterised"""
+    if reverse:
+        # same renderings requested in the opposite order (exposes state written by an earlier render)
+        res = {}
+        for name, ctx in reversed(contexts()):
+            for par in (True, False):
+                try:
+                    if par:
+                        p = Parameterizer()
+                        sql = obj.get_sql(ctx.copy(parameterizer=p))
+                        res[f"{name}/param"] = (sql, repr(p.values))
+                    else:
+                        res[f"{name}/inline"] = obj.get_sql(ctx)
+                except Exception as e:
+                    res[f"{name}/{'param' if par else 'inline'}"] = f"!{type(e).__name__}:{e}"
+        return res
     res = {}
     try:
         res["str"] = str(obj)
@@ -103,7 +118,8 @@ def terms_universe():
         ("firstvalue", an.FirstValue(f).over(g).ignore_nulls()), ("ntile", an.NTile(4).orderby(f)),
         ("rollup", T.Rollup(f, g)), ("pseudo", T.PseudoColumn("ROWNUM")), ("attz", T.AtTimezone(f, "UTC")),
         ("values", T.Values("foo")), ("index", Index("idx")), ("pow", f ** 2), ("mod", f % 3),
-        ("interval", None),
+        ("interval", Interval(days=1)), ("interval_hm", Interval(hours=2, minutes=3)),
+        ("interval_neg", Interval(microseconds=-5)),
     ]
     return [(k, v) for k, v in out if v is not None]
 
@@ -128,6 +144,7 @@ def queries_universe():
         out.append((f"{n}.index", qc.from_(t).select(t.foo).force_index("i1").use_index("i2")))
         out.append((f"{n}.rollup", qc.from_(t).select(t.foo).groupby(t.bar).rollup(t.foo)))
         out.append((f"{n}.for_update", qc.from_(t).select(t.foo).for_update(of=("t",))))
+        out.append((f"{n}.for_update2", qc.from_(t).select(t.foo).for_update(of=("abc", "cba", "t", "u", "zeta"))))
         out.append((f"{n}.distinct", qc.from_(t).select(t.foo).distinct()))
         out.append((f"{n}.upsert", qc.into(t).insert(1, 2).on_conflict("id").do_update("a", 5)))
         out.append((f"{n}.update_join", qc.update(t).join(u).on(t.id == u.tid).set(t.a, u.b).where(u.c == 1)))
